@@ -1,6 +1,7 @@
 package zzharness
 
 import (
+	"syscall"
 	"encoding/json"
 	"fmt"
 	"os"
@@ -92,12 +93,35 @@ func TestSim(t *testing.T) {
 	if simProcess {
 		simrt.SetSimProcess(true)
 	}
+	if p.MemLimitGB > 0 && j.Mode != "driver" && !simrt.RaceEnabled {
+		// the property feeds the server inputs that may make it ask for absurd amounts of memory: with a bounded address
+		// space such a request fails at once (fatal "out of memory", which the driver reports as a process crash and
+		// replays) instead of succeeding on a large machine and starving everything else
+		lim := uint64(p.MemLimitGB) << 30
+		if err := syscall.Setrlimit(syscall.RLIMIT_AS, &syscall.Rlimit{Cur: lim, Max: lim}); err != nil {
+			fmt.Fprintf(os.Stderr, "harness: cannot bound the address space: %v\n", err)
+			os.Exit(2)
+		}
+	}
 	switch j.Mode {
 	case "driver":
 		os.Exit(driver(t, p, j))
 	case "worker":
 		worker(t, p, j)
+	case "gencase":
+		// development aid: write the case the generator produces for a case seed (as printed in diagnostics)
+		b, _ := json.MarshalIndent(p.Gen(j.Seed, j.Tier), "", " ")
+		os.WriteFile(j.Out, b, 0o644)
 	case "run":
+		if j.Repeat > 1 {
+			// development aid: the same case several times in one process, one line per execution
+			c := loadCase(j.CaseFile)
+			for i := 0; i < j.Repeat; i++ {
+				r := safeRun(t, p, c)
+				fmt.Printf("rep %d: %s %s %x steps=%d detail=%s\n", i, r.Verdict, r.Class, r.TraceHash, r.Counters["sched_steps"], r.Detail)
+			}
+			os.Exit(0)
+		}
 		os.Exit(runOne(t, p, j))
 	case "shrink":
 		shrinkJob(t, p, j)
